@@ -480,6 +480,15 @@ func (fr *Frame) evalCall(x *ECall, env *Env) Val {
 		}
 		c.errorf("%s: local(): no such local", fr.name)
 		return intVal("0")
+	case "athead":
+		// value of the expression at the head of the current loop (start of this iteration)
+		if env.loop == nil || env.loop.hstate == nil {
+			c.errorf("%s: athead() outside a loop clause", fr.name)
+			return intVal("0")
+		}
+		n := *env
+		n.cur = env.loop.hstate
+		return fr.evalExpr(x.Args[0], &n)
 	case "outer":
 		// value of the expression at the head of the enclosing loop (current outer iteration)
 		if env.loop == nil {
